@@ -199,6 +199,55 @@ func c17Command(rc *RunCtx, t *simrt.Tape) {
 		codecName, fkNames[kind], k, N, bit, transport, len(got), len(fc.Recs), p, dec)
 }
 
+// c17StdinError: a real read(2) error on standard input (a directory: EISDIR at once; a reset
+// socket: k bytes then ECONNRESET) must be fatal, on plain and on gzip data alike.
+func c17StdinError(rc *RunCtx, t *simrt.Tape) {
+	fc := genFile(simrt.PrefixTape([]int32{int32(t.Choose(2))}, uint64(t.Choose(1<<30))), 40, false)
+	gz := t.Choose(2)
+	image := compress(gz, fc.Text)
+	p := drawParCfg(t, len(fc.Recs))
+	dir := filepath.Join(rc.Dir, fmt.Sprintf("e%d", rc.Index))
+	os.MkdirAll(dir, 0755)
+	defer cleanup(dir)
+	out := filepath.Join(dir, "out.fastx")
+	spec := CmdSpec{Name: "obiconvert", Dir: dir, PoolPolicy: p.Pool, YieldDensity: p.Yield,
+		Args: []string{"--max-cpu", fmt.Sprint(p.MaxCPU), "--batch-size", fmt.Sprint(p.BatchSize), "-o", out}}
+	how := "directory"
+	k := 0
+	if t.Choose(3) == 0 {
+		sub := filepath.Join(dir, "adir")
+		os.MkdirAll(sub, 0755)
+		spec.Stdin = sub
+	} else {
+		how = "reset-socket"
+		k = t.Choose(minI(len(image), 60000) + 1)
+		spec.Stdin = "@inherited"
+		spec.StdinData = image
+		spec.StdinFailAfter = k
+	}
+	codecName := codecNames[gz]
+	rc.Out.Sample = map[string]any{"stage": "command", "transport": "stdin-kseq", "fault": "read(2) error", "how": how, "after_bytes": k, "codec": codecName, "image_bytes": len(image), "config": p.String()}
+	co := rc.RunCmd(spec)
+	rc.Fault(fmt.Sprintf("command_stdin_readerror_%s_%s", how, codecName))
+	rc.Out.Nontrivial = true
+	rc.Out.Key = fmt.Sprintf("cmd/stdin-error/%s/%s/%d/%d", how, codecName, len(image), k)
+	base := fmt.Sprintf("C17/%s/readerror", codecName)
+	switch {
+	case co.TimedOut || co.StepCap:
+		rc.Inconclusive("%s", co.Describe())
+	case co.Deadlock:
+		rc.Violate(base+"/hang/command-stdin-kseq", "obiconvert hangs after a read error on its standard input: %s", co.Describe())
+	case co.Crashed || co.Failed():
+		rc.Probe("command_reported")
+	default:
+		raw, _ := os.ReadFile(out)
+		got, _ := parseObiFastx(raw)
+		rc.Violate(fmt.Sprintf("%s/decoder-reported/ok-partial/%s/command-stdin-kseq", base, how),
+			"obiconvert exited with status 0 although reading its standard input failed (%s, after %d of %d bytes, %s data); it wrote %d of %d records (%s)",
+			how, k, len(image), codecName, len(got), len(fc.Recs), p)
+	}
+}
+
 // c18Command: a command whose output goes to /dev/full must exit non-zero.
 func c18Command(rc *RunCtx, t *simrt.Tape) {
 	name := []string{"obiconvert", "obiconvert", "obicsv", "obigrep"}[t.Choose(4)]
